@@ -18,10 +18,11 @@ MANIFEST = dict(
          'or defined (stub_imports_closed). Tied to the code by a translator (reserved words, branches of the type mapping, '
          'callback table, emitted templates, pinned by rfl) and by differential runs: ast of every generated .pyi and the '
          'introspected runtime module against the compiled model, plus a direct oracle on the real artefacts.',
-    note='stub_imports_closed carries a hypothesis the real generator can violate, shown necessary by a counterexample proved in '
-         'Lean and reproduced on the real code by hand seeds (listed finding): every namespace a resolved annotation mentions '
-         'must be imported - the stub resolves aliases and repeats inherited fields, so it can mention a namespace module its '
-         'own spec text never names. stub_eq_runtime_names has no hypothesis since the repair of D20 (both generators name the '
+    note='stub_imports_closed needs only a well-formedness the frontend establishes (a reference into the namespace itself is to a '
+         'type it defines, checked on every dumped description): since the repair of C15-stub-indirect-namespace-import the '
+         'callback for user-defined types imports the namespace module of every class an annotation mentions, also one the spec '
+         'text of the namespace never names (the stub resolves aliases and repeats inherited fields; regression theorem '
+         'imports_regression + hand seeds). stub_eq_runtime_names has no hypothesis since the repair of D20 (both generators name the '
          'validator of an alias after fmt_class(alias.name); regression example + seed). Syntactic validity of the .pyi and '
          'resolution of attribute references are observed by testing, not proved. Trusted: Lean kernel, translator, '
          'generators, CPython ast / inspect / typing. typing.Text is read as str. Names of generated specs are Python safe (a '
